@@ -397,14 +397,14 @@ def run(run):
                                               clientbound, serverbound)
     thorough = run.tier == 'thorough'
     run.level = 'exploration'
-    reps = 24 if thorough else 4
+    reps = 60 if thorough else 4
     run.rule = ('all %d supported protocol versions x every class of the 8 '
                 'state/direction tables x %d value sets (boundary + seeded '
                 'random; every action/event/optional-field variant for custom '
                 'codecs), plus %d generated field-list packet definitions '
                 '("programs"). Distinct = (version, class, values).'
                 % (len(minecraft.SUPPORTED_PROTOCOL_VERSIONS), reps,
-                   4000 if thorough else 400))
+                   20000 if thorough else 600))
     run.assumptions = [
         'wire-representable = accepted by both write and read (e.g. map '
         'offsets 0..127, Angle/FixedPoint compared within one quantum)',
@@ -475,7 +475,7 @@ def run(run):
                                                T.UnsignedByte, T.Integer)),
                                    rand_type(depth + 1))
         return rng.choice(leaf)
-    n_prog = 4000 if thorough else 400
+    n_prog = 20000 if thorough else 600
     for i in range(n_prog):
         if not run.mine(i):
             continue
